@@ -353,6 +353,47 @@ func engineMsg(rng *rand.Rand, n int, tier string, o *Out) {
 				o.Case("msg_dec", fmt.Sprintf("d%d", id), in, obs, true, verdict)
 				id++
 			}
+			// Frame.ReadIn + Frame.read on a frame buffer holding stale bytes of an earlier,
+			// longer message of the same kind: truncated payloads with a consistent header
+			if kind <= 1 || kind == 4 || kind == 5 {
+				stale := append([]byte{}, payload...)
+				if len(stale) == 0 {
+					stale = []byte{0xAA}
+				}
+				cutsF := []int{len(payload)}
+				for k := 0; k < 4 && len(payload) > 0; k++ {
+					cutsF = append(cutsF, len(payload)-1-rng.Intn(min(len(payload), 17)))
+				}
+				if rng.Intn(3) == 0 {
+					cutsF = append(cutsF, 0)
+				}
+				for _, cut := range cutsF {
+					stream := rawFrameBytes(frame[2], v.ID, payload[:cut])
+					code, back, derr := tchannel.VerifFrameDecode(kind, stream, stale)
+					in := []int64{int64(kind)}
+					for _, b := range stream {
+						in = append(in, int64(b))
+					}
+					obs := []int64{int64(code)}
+					verdict := ""
+					if code == 0 {
+						if derr != nil {
+							obs = append(obs, 1)
+						} else {
+							if back.Span[0] > 1<<63-1 || back.Span[1] > 1<<63-1 || back.Span[2] > 1<<63-1 {
+								continue
+							}
+							obs = append(obs, decObs(kind, back, 0)...)
+							if cut < len(payload) {
+								verdict = fmt.Sprintf("Frame.read decoded a kind-%d message from a frame whose declared payload is a strict prefix (%d of %d bytes): it looked beyond the declared frame size", kind, cut, len(payload))
+							}
+						}
+					}
+					o.Hist(fmt.Sprintf("frame_dec kind=%d cut=%v err=%v", kind, cut < len(payload), derr != nil))
+					o.Case("frame_dec", fmt.Sprintf("g%d", id), in, obs, true, verdict)
+					id++
+				}
+			}
 			// frame level: ReadIn on frame ++ junk, on prefixes, and with the size field mutated
 			var streams [][]byte
 			streams = append(streams, append(append([]byte{}, frame...), []byte(randBytes(rng, rng.Intn(4)))...))
